@@ -33,7 +33,7 @@ m("c01-tps-in-response", "C01", "app/app.go",
 
 # ---------------- C02 ----------------
 m("c02-no-flush-distribution", "C02", "precompiles/distribution/distribution.go",
-  "\tif err := stateDB.Commit(); err != nil {\n\t\treturn nil, err\n\t}\n", "\t_ = stateDB\n", "flush-before-dispatch")
+  "\tif err := stateDB.Flush(); err != nil {\n\t\treturn nil, err\n\t}\n", "\t_ = stateDB\n", "flush-before-dispatch")
 m("c02-erc20-mints-evm", "C02", "x/erc20/keeper/msg_server.go",
   "err = k.bankKeeper.BurnCoins(ctx, types.ModuleName, coins)", "err = k.bankKeeper.BurnCoins(ctx, \"evm\", coins)", "BurnCoins/evm")
 m("c02-mint-without-send", "C02", "x/evm/keeper/statedb.go",
